@@ -24,7 +24,7 @@ def draws_for(seed, sizes):
 class C16(Prop):
     id = 'C16'
     extracted = True      # sampling kernels regenerated from the current source (harness/extract.py, Extracted/EquivC16.lean)
-    quick_cases = 2500
+    quick_cases = 6000
     thorough_cases = 40000
     quick_budget_s = 45
     rule = ('seeds 0..49 (and large ones) x fractions {0, .05, .3, .5, .9, 1, 2.5 with replacement} x lists with duplicates '
